@@ -76,6 +76,46 @@ func c11Owned(w *storWorld) map[string]map[string]string {
 // c11Compare: after a message signed by signer, nobody else's resources changed (an inbox may gain
 // notifications newly created by the signer).
 func c11Compare(before, after map[string]map[string]string, signer string, what string) (string, string) {
+	return c11CompareScoped(before, after, signer, what, "", nil)
+}
+
+// c11Manages says whether a message type is one of those the property names as managing that kind of resource
+// ("messages that manage a provider record, an oracle feed, a notification inbox or block list, a primary-name or
+// storage-file deletion"). What other message types do to those resources is outside the statement: it is counted.
+func c11Manages(url, kind string) bool {
+	has := func(parts ...string) bool {
+		for _, p := range parts {
+			if strings.Contains(url, p) {
+				return true
+			}
+		}
+		return false
+	}
+	switch kind {
+	case "provider", "collateral":
+		return has(".storage.MsgSetProvider", ".storage.MsgAddClaimer", ".storage.MsgRemoveClaimer", ".storage.MsgInitProvider", ".storage.MsgShutdownProvider")
+	case "feed":
+		return has(".oracle.Msg")
+	case "inbox", "block":
+		return has(".notifications.Msg")
+	case "primary-name":
+		return has(".rns.MsgMakePrimary")
+	case "file", "file-proof":
+		return has(".storage.MsgDeleteFile")
+	}
+	return true
+}
+
+func c11CompareScoped(before, after map[string]map[string]string, signer string, what string, url string, outOfScope *int) (string, string) {
+	inScope := func(k string) bool {
+		if url == "" || c11Manages(url, strings.SplitN(k, ":", 2)[0]) {
+			return true
+		}
+		if outOfScope != nil {
+			*outOfScope++
+		}
+		return false
+	}
 	owners := map[string]bool{}
 	for o := range before {
 		owners[o] = true
@@ -90,6 +130,9 @@ func c11Compare(before, after map[string]map[string]string, signer string, what 
 		b, a := before[o], after[o]
 		for k, v := range b {
 			av, ok := a[k]
+			if !ok && !inScope(k) {
+				continue
+			}
 			if !ok {
 				return "C11/foreign-resource-removed/" + strings.SplitN(k, ":", 2)[0], fmt.Sprintf("%s signed by %s removed %s of %s", what, short(signer), trunc(k, 60), short(o))
 			}
@@ -99,6 +142,9 @@ func c11Compare(before, after map[string]map[string]string, signer string, what 
 				if parts := strings.Split(strings.TrimPrefix(k, "inbox:"), "/"); len(parts) == 3 && parts[1] == signer {
 					continue
 				}
+			}
+			if av != v && !inScope(k) {
+				continue
 			}
 			if av != v {
 				return "C11/foreign-resource-changed/" + strings.SplitN(k, ":", 2)[0], fmt.Sprintf("%s signed by %s changed %s of %s", what, short(signer), trunc(k, 60), short(o))
@@ -114,6 +160,9 @@ func c11Compare(before, after map[string]map[string]string, signer string, what 
 					continue // a notification the signer sent to o
 				}
 			}
+			if !inScope(k) {
+				continue
+			}
 			return "C11/foreign-resource-created/" + strings.SplitN(k, ":", 2)[0], fmt.Sprintf("%s signed by %s created %s for %s", what, short(signer), trunc(k, 60), short(o))
 		}
 	}
@@ -122,7 +171,7 @@ func c11Compare(before, after map[string]map[string]string, signer string, what 
 
 func TestC11(t *testing.T) {
 	rec := ev.For("C11")
-	rec.Describe("(a) programs x inputs: the request types of the custom Msg services are enumerated from the app's interface registry (45 at the pinned commit; every registered type must be routable); for each type every field is filled by reflection, in one family with a distinct valid address in every string field, in another with generic values; GetSigners() must be exactly [Creator], the router must have a handler, and the message must survive a TxConfig encode/decode round trip. (b) abci: for every type a transaction whose message names creator A but is signed only by B must be rejected before execution (no sequence bump, no state change), the same message signed by A must pass the ante handler (sequence bumps). (c) fork histories: owners set up provider records + collateral + claimers, oracle feeds, inboxes, block lists, primary names and stored files; then arbitrary messages of all types (fields drawn from pools that contain the owners' resources) are signed by every account; after each message the resources of every non-signer (provider record, collateral, feeds by owner, inbox except notifications the signer just sent, block list, primary-name pointer, set of stored files) must be unchanged; wasmbinding.PerformPostFile must fail unless msg.Creator == contract. Non-trivial = (a) a type with >= 2 string fields filled with distinct addresses, (c) a history in which a non-owner aimed an owner-only message type at an existing resource; distinct = distinct cases.",
+	rec.Describe("(a) programs x inputs: the request types of the custom Msg services are enumerated from the app's interface registry (45 at the pinned commit; every registered type must be routable); for each type every field is filled by reflection, in one family with a distinct valid address in every string field, in another with generic values; GetSigners() must be exactly [Creator], the router must have a handler, and the message must survive a TxConfig encode/decode round trip. (b) abci: for every type a transaction whose message names creator A but is signed only by B must be rejected before execution (no sequence bump, no state change), the same message signed by A must pass the ante handler (sequence bumps). (c) fork histories: owners set up provider records + collateral + claimers, oracle feeds, inboxes, block lists, primary names and stored files; then arbitrary messages of all types (fields drawn from pools that contain the owners' resources) are signed by every account; after each message of a type the property names as managing a kind of resource (provider messages: provider record and collateral; oracle messages: feeds; notification messages: inbox and block list; MakePrimary: primary-name pointer; DeleteFile: stored files and their proof records) those resources of every non-signer must be unchanged (an inbox may gain what the signer just sent); what other message types do to them is counted, not judged; wasmbinding.PerformPostFile must fail unless msg.Creator == contract. Non-trivial = (a) a type with >= 2 string fields filled with distinct addresses, (c) a history in which a non-owner aimed an owner-only message type at an existing resource; distinct = distinct cases.",
 		"contract execution itself is not exercised (no wasm binaries offline); the binding is exercised at PerformPostFile")
 	c := chain.New(chain.GenesisOpts{NumAccounts: 8, Balance: sdk.NewCoins(sdk.NewInt64Coin("ujkl", 1_000_000_000_000_000))})
 	defer c.Close()
@@ -355,6 +404,12 @@ func TestC11(t *testing.T) {
 			oo = append(oo, u)
 		}
 		sort.Strings(oo)
+		outOfScope := 0
+		defer func() {
+			if outOfScope > 0 {
+				rec.Count("histories-where-a-message-type-the-property-does-not-name-touched-a-foreign-resource")
+			}
+		}()
 		steps := rapid.IntRange(5, 40).Draw(rt, "steps")
 		for i := 0; i < steps; i++ {
 			u := urls[rapid.IntRange(0, len(urls)-1).Draw(rt, "type")]
@@ -388,7 +443,7 @@ func TestC11(t *testing.T) {
 					}
 				}
 			}
-			if sig, msg := c11Compare(before, c11Owned(w), signer, msgSummary(m)); sig != "" {
+			if sig, msg := c11CompareScoped(before, c11Owned(w), signer, msgSummary(m), sdk.MsgTypeURL(m), &outOfScope); sig != "" {
 				failf(rt, rec, sig, w.trace, "%s", msg)
 			}
 			switch rapid.IntRange(0, 19).Draw(rt, "tick") {
